@@ -2,20 +2,82 @@ import HydroVerif.Proto
 import HydroVerif.Model.C19
 open HydroVerif HydroVerif.C19
 
+/-! Line protocol of the C19 model driver. Values cross as typed tokens: `i12`, `i-3`, `sabc`, `f0.5`, `oNone`.
+An option row of the value matrix is `v,v,v`, `!v` (a scalar given bare), `-` (an empty iterable) or `?` (neither a
+scalar nor iterable). -/
+
 def errName : Err → String
   | .nelemLt1 => "nelemLt1" | .nelemLtNbatch => "nelemLtNbatch" | .ibatchRange => "ibatchRange"
+  | .numpy => "numpy" | .indexError => "indexError"
 
 def fmtMat (rows : List (List String)) : String :=
   "[" ++ ";".intercalate (rows.map fun r => ",".intercalate r) ++ "]"
 
-/-- a row `!v` of the value matrix is a scalar given bare -/
-def toArg (row : List String) : OptArg :=
-  match row with
-  | [s] => if s.startsWith "!" then .bare (s.drop 1).toString else .many [s]
-  | _ => .many row
+def valTok? (s : String) : Option Val :=
+  let body := (s.drop 1).toString
+  if s.startsWith "i" then body.toInt?.map Val.int
+  else if s.startsWith "s" then some (.str body)
+  else if s.startsWith "f" then some (.flt body)
+  else if s.startsWith "o" then some (.other body)
+  else none
 
-def mkManager (name : String) (ctxK ctxV keys : List String) (vals : List (List String)) : Manager :=
-  fromCartesianArgs name (ctxK.zip ctxV) (keys.zip (vals.map toArg))
+def fmtVal : Val → String
+  | .int i => "i" ++ toString i
+  | .str s => "s" ++ s
+  | .flt r => "f" ++ r
+  | .other r => "o" ++ r
+
+def toArg? (row : List String) : Option OptArg :=
+  match row with
+  | ["?"] => some .notIterable
+  | ["-"] => some (.many [])
+  | [s] => if s.startsWith "!" then (valTok? (s.drop 1).toString).map OptArg.bare
+           else (valTok? s).map fun v => OptArg.many [v]
+  | _ => (HydroVerif.allSome (row.map valTok?)).map OptArg.many
+
+def args? (keys : String) (vals : String) : Option (List (String × OptArg)) :=
+  (HydroVerif.allSome ((matToks vals).map toArg?)).map fun as => (listToks keys).zip as
+
+def dict? (keys : String) (vals : String) : Option Dict :=
+  (HydroVerif.allSome ((listToks vals).map valTok?)).map fun vs => (listToks keys).zip vs
+
+def fmtDict (d : Dict) : String := fmtList (d.map fun kv => kv.1 ++ "=" ++ fmtVal kv.2)
+
+def fmtOut (cur : Manager) : Out → String
+  | .ok => "ok"
+  | .err => "err"
+  | .ids l => "ids" ++ fmtNatList l
+  | .task t => s!"task:{t.taskid}:{fmtDict t.context}:{fmtDict t.options}"
+  | .mgr m' =>
+    -- `==` between managers that differ is not constrained by the property: only the outcome on equal managers is compared
+    if m' = cur then s!"mgr:{mEq cur m'}:{mEq m' cur}:true:{m'.tasks.length}" else s!"mgr:differs:{m'.tasks.length}"
+
+/-- one operation of a history, as one token -/
+def op? (tok : String) : Option Op :=
+  match tok.splitOn ":" with
+  | ["K", key, name] => some (.setKey key name)
+  | ["R"] => some .resetKeys
+  | ["C", keys, vals] => (args? keys vals).map Op.cartesian
+  | ["F", keys, vals] => (dict? keys vals).map Op.find
+  | ["T", id] => id.toInt?.map Op.getTask
+  | ["E"] => some .exp
+  | ["J"] => some .jsn
+  | ["I"] => some .imp
+  | ["S", path, ow] => some (.save path (ow == "1"))
+  | ["L", path] => some (.load path)
+  | _ => none
+
+/-- replies of a history, each formatted against the manager held when the operation is made; the last token says
+whether the final world is the one `run` computes (the same fold, so always `true`: it ties `run` to this loop) -/
+def runFmt (w : World) (ops : List Op) : List String :=
+  let rec go (w : World) : List Op → List String
+    | [] => []
+    | op :: rest =>
+      let (w1, o) := step w op
+      fmtOut w.mgr o :: go w1 rest
+  let outs := go w ops
+  let (wf, os) := run w ops
+  outs ++ [s!"n={os.length},ntasks={wf.mgr.tasks.length},files={wf.files.length},knok={decide wf.kn.ok}"]
 
 def handle (toks : List String) : String :=
   match toks with
@@ -26,24 +88,87 @@ def handle (toks : List String) : String :=
       | .ok l => "ok " ++ fmtNatList l
       | .error e => "err " ++ errName e
     | _, _, _ => "bad-op"
+  | ["split", n, k] =>
+    match n.toNat?, k.toNat? with
+    | some n, some k =>
+      match HydroVerif.C19.allSome (arraySplit (List.range n) k) with
+      | some parts =>
+        let closed := (List.range k).map (batch n k)
+        let sizes := (List.range k).map (bsize n k)
+        let starts := (List.range (k + 1)).map (bstart n k)
+        s!"{fmtMat (parts.map fun p => p.map toString)} sizes={fmtNatList (sectionSizes n k)} points={fmtNatList (divPoints n k)} closed={decide (parts = closed)} bsize={decide (sizes = sectionSizes n k)} bstart={decide (starts = divPoints n k)}"
+      | none => "err numpy"
+    | _, _ => "bad-op"
   | ["search", n, k, s] =>
     match n.toNat?, k.toNat?, s.toNat? with
     | some n, some k, some s => match search n k s with | some i => s!"some {i}" | none => "none"
     | _, _, _ => "bad-op"
+  | ["sbitem", ids, k, i] =>
+    match k.toInt?, i.toInt? with
+    | some k, some i =>
+      match SiteBatch.mk? (listToks ids) k with
+      | none => "err nonUnique"
+      | some sb => match sb.getItem i with
+        | .ok l => "ok " ++ fmtList l
+        | .error e => "err " ++ errName e
+    | _, _ => "bad-op"
+  | ["sbsearch", ids, k, id] =>
+    match k.toInt? with
+    | some k =>
+      match SiteBatch.mk? (listToks ids) k with
+      | none => "err nonUnique"
+      | some sb => match sb.search id with
+        | .ok (some i) => s!"some {i}"
+        | .ok none => "none"
+        | .error e => "err " ++ errName e
+    | none => "bad-op"
   | ["product", keys, vals] =>
-    let m := mkManager "m" [] [] (listToks keys) (matToks vals)
-    fmtMat (m.tasks.map fun t => t.map (·.2))
-  | ["find", keys, vals, key, val] =>
-    let m := mkManager "m" [] [] (listToks keys) (matToks vals)
-    match find m key val with
-    | some l => "ok " ++ fmtNatList l
-    | none => "err unknownKey"
+    match args? keys vals with
+    | some args =>
+      match (Manager.new "m" []).cartesian args with
+      | (m, true) =>
+        -- the accepted manager is `fromCartesian` of the dictionary of value lists (theorem `fromCartesianArgs_eq`)
+        let lists := args.filterMap fun kv => kv.2.toList?
+        let fc := decide (m = fromCartesian "m" (dictOf []) (dictOf ((args.map (·.1)).zip lists)))
+        s!"n={m.tasks.length} " ++ fmtMat (m.tasks.map fun t => t.map fun kv => fmtVal kv.2) ++ s!" fc={fc}"
+      | (m, false) => "err typeError " ++ fmtList (m.options.map (·.1))
+    | none => "bad-op"
+  | ["find", keys, vals, ck, cv] =>
+    match args? keys vals, dict? ck cv with
+    | some args, some crit =>
+      let m := fromCartesianArgs "m" [] args
+      let plain := crit.all (·.2.plain) && m.options.all fun kv => kv.2.all Val.plain
+      let quant := crit.all (·.2.quant) && m.options.all fun kv => kv.2.all Val.quant
+      match find m crit with
+      | .ok l => s!"ok {fmtNatList l} plain={plain} quant={quant}"
+      | .error .unknownKey => "err unknownKey"
+      | .error .keyError => "err keyError"
+    | _, _ => "bad-op"
+  | ["gettask", ctxK, ctxV, keys, vals, id, key] =>
+    match dict? ctxK ctxV, args? keys vals, id.toInt? with
+    | some ctx, some args, some id =>
+      let m := fromCartesianArgs "m" ctx args
+      match getTask m id with
+      | some t =>
+        let got := match t.get key with | some v => fmtVal v | none => "err"
+        let exported := match (toDict KeyNames.default m).lookup "tasks" with | some (.tasks ts) => ts[t.taskid]? | _ => none
+        let same := reprStr (some (t.toDict KeyNames.default)) == reprStr exported
+        s!"task:{t.taskid}:{fmtDict t.context}:{fmtDict t.options} get={got} todict={same}"
+      | none => "err"
+    | _, _, _ => "bad-op"
   | ["roundtrip", kc, kt, km, name, ctxK, ctxV, keys, vals] =>
     let kn : KeyNames := ⟨kc, kt, km⟩
-    let m := mkManager name (listToks ctxK) (listToks ctxV) (listToks keys) (matToks vals)
-    match fromDict kn (toDict kn m) with
-    | some m' => s!"some {mEq m m'} {mEq m' m} {decide (m' = m)} {m'.tasks.length}"
-    | none => "none"
+    match dict? ctxK ctxV, args? keys vals with
+    | some ctx, some args =>
+      let m := fromCartesianArgs name ctx args
+      match fromDict kn (toDict kn m) with
+      | some m' => s!"some {mEq m m'} {mEq m' m} {decide (m' = m)} {m'.tasks.length} knok={decide kn.ok} okeq={decide kn.okEq}"
+      | none => s!"none knok={decide kn.ok} okeq={decide kn.okEq}"
+    | _, _ => "bad-op"
+  | "hist" :: name :: ctxK :: ctxV :: ops =>
+    match dict? ctxK ctxV, HydroVerif.allSome (ops.map op?) with
+    | some ctx, some ops => " ".intercalate (runFmt (World.init name ctx) ops)
+    | _, _ => "bad-op"
   | _ => "bad-op"
 
 def main : IO Unit := serve handle
